@@ -271,6 +271,46 @@ fn huge_scenarios(r: &mut Report) {
         Ok(v) => fails.extend(v),
         Err(_) => fails.push("try_extend from a non-fused iterator or from an iterator with an astronomic size hint panicked".into()),
     }
+    // plain iterators whose size hint is loose (filter, flat_map, take_while, skip_while, chain with an unbounded hint):
+    // what counts is what the iterator yields, not what it announces - the result is that of try_extend from the
+    // collected values (all or nothing, first yielded value = new top)
+    let res3 = std::panic::catch_unwind(|| {
+        let mut out: Vec<String> = vec![];
+        for (max, pre) in [(4usize, vec![10i64, 20]), (2, vec![1, 2]), (6, vec![]), (3, vec![5]), (0, vec![]), (1, vec![9])] {
+            for src_len in [0usize, 1, 2, 3, 6, 9] {
+                for keep_mod in [1usize, 2, 3, 100] {
+                    let src: Vec<i64> = (0..src_len as i64).map(|j| 100 + j).collect();
+                    let kept: Vec<i64> = src.iter().copied().filter(|v| (*v as usize) % keep_mod == 0).collect();
+                    let makers: Vec<(&str, Box<dyn Fn() -> Box<dyn Iterator<Item = i64>>>)> = vec![
+                        ("filter", Box::new({ let s = src.clone(); move || Box::new(s.clone().into_iter().filter(move |v| (*v as usize) % keep_mod == 0)) })),
+                        ("flat_map", Box::new({ let s = src.clone(); move || Box::new(s.clone().into_iter().flat_map(move |v| if (v as usize) % keep_mod == 0 { vec![v] } else { vec![] })) })),
+                        ("filter_map", Box::new({ let s = src.clone(); move || Box::new(s.clone().into_iter().filter_map(move |v| if (v as usize) % keep_mod == 0 { Some(v) } else { None })) })),
+                        ("skip_while+filter", Box::new({ let s = src.clone(); move || Box::new(s.clone().into_iter().skip_while(|_| false).filter(move |v| (*v as usize) % keep_mod == 0)) })),
+                        ("chain(empty filter)", Box::new({ let k = kept.clone(); move || Box::new(k.clone().into_iter().chain((0..1000i64).filter(|_| false))) })),
+                    ];
+                    for (name, mk) in &makers {
+                        let mut s: Stack<i64> = Stack::default();
+                        s.set_max_stack_size(max);
+                        s.push_many(pre.clone().into_iter().rev().collect::<Vec<_>>()).expect("fits");
+                        let mut reference = s.clone();
+                        let before = contents(&s);
+                        let verdict = s.try_extend(&mut mk());
+                        let want = reference.try_extend(&mut kept.clone().into_iter());
+                        let fits = kept.len() <= max.saturating_sub(before.len());
+                        if verdict.is_ok() != want.is_ok() || verdict.is_ok() != fits || contents(&s) != contents(&reference) {
+                            out.push(format!("try_extend from a `{name}` iterator over {src_len} values of which {} are yielded ({kept:?}) into max={max} {before:?}: {verdict:?} with contents {:?}; from the collected values: {want:?} with contents {:?}", kept.len(), contents(&s), contents(&reference)));
+                        }
+                        if verdict.is_err() && contents(&s) != before { out.push(format!("a failed try_extend from a `{name}` iterator changed the contents of max={max} {before:?}")); }
+                    }
+                }
+            }
+        }
+        out
+    });
+    match res3 {
+        Ok(v) => fails.extend(v.into_iter().take(8)),
+        Err(_) => fails.push("try_extend from a filter / flat_map / chain iterator panicked".into()),
+    }
     r.case("stack huge capacities", true);
     r.hit("huge capacity / iterator scenarios");
     for f in fails {
